@@ -34,6 +34,15 @@ def scenarios(quick):
             out.append(scenario([retry(2, dly=1), to(L)], fns, [start(1), env("CtxCancel", ct, 1)]))
             out.append(scenario([retry(2, dly=1), to(L)], fns, [start(1, 0, True), env("AsyncCancel", ct, 1)]))
             out.append(scenario([fb(), retry(2), to(L)], fns, [start(1, 0, True), env("AsyncCancel", ct, 1, gap=1)]))
+    # somebody else cancels first while the (non-cooperating) function still returns within the limit: a Timeout that did not
+    # fire returns what is inside it unchanged and stays silent
+    for st in ([to(L)], [to(2 * L), to(L)], [fb(), to(L)], [to(L), fb(h=[cE("E2")])]):
+        for ct in (0, 1, 2):
+            for oc in (("R1", None), ("R0", "E1")):
+                fns = [[fn(3, oc[0], oc[1], False), fn(1, "R1")]]
+                out.append(scenario(st, fns, [start(1), env("CtxCancel", ct, 1)]))
+                out.append(scenario(st, fns, [start(1, 0, True), env("AsyncCancel", ct, 1)]))
+                out.append(scenario(st, fns, [start(1, 0, ct == 1), env("CtxDeadline", ct + 1, 1)]))
     for ct in (L + 1, L + 2):
         fns = [[fn(L + 1, "R0", "E1", True), fn(2, "R1", None, True), fn(1, "R1")]]
         out.append(scenario([retry(2, dly=3), to(L)], fns, [start(1, 0, True), env("AsyncCancel", ct, 1)]))
